@@ -9,6 +9,10 @@ package main
 //   spawn T set K V          Set in a goroutine; parks at gw.set.summoned (instance handed out, no vigil yet),
 //                            then at gw.set.vigil (vigil held, nothing written yet)
 //   spawn T del K            Delete in a goroutine; parks at destroy.draining when it removed the last record
+//   spawn T close            Close() on the mapped instance in a goroutine; parks at swamp.closed (flushed, routines
+//                            cancelled, close callback — which removes the map entry — not yet called)
+//   spawnw T set K V         like spawn, but the request may have to wait for a closing instance → … | T waiting
+//   poll T                   where a waiting / parked T is now                      → T@<point> | T waiting
 //   go T                     release T to its next park point / completion          → T@<point> | T done <status>
 //   tick arm                 wait until this swamp's close listener has read lastInteractionTime with an
 //                            "idle long enough" outcome and park it there            → tick parked | tick timeout
@@ -55,6 +59,9 @@ func c16Gen(rng *rand.Rand, tier string, w *bufio.Writer) {
 	fmt.Fprintf(w, "case %d life d\nset a x\nspawn A set b y\ngo A\ngo A\nspawn B del a\nreopen\nclose\nreopen\n", c)
 	c++
 	fmt.Fprintf(w, "case %d life i\nset a x\ntick arm\ntick go\nspawn A set b y\ngo A\ngo A\nclose\nreopen\n", c)
+	c++
+	// a request summons while a closing instance is flushed but still mapped: it has to wait for the map entry to go
+	fmt.Fprintf(w, "case %d life d\nset a x\nspawn C close\nspawnw A set b y\ngo C\npoll A\ngo A\ngo A\nreopen\nclose\nreopen\n", c)
 	c++
 	// sequential: delete, re-create, delete on a key that is in the file
 	fmt.Fprintf(w, "case %d life d\nset c x\nset a x\nclose\ndel c\nset c y\ndel c\nclose\nreopen\n", c)
@@ -198,6 +205,31 @@ func (st *c16State) await(t *c16Thread) string {
 	}
 }
 
+// awaitFor is await for a request that may legitimately be waiting (no leak accounting)
+func (st *c16State) awaitFor(t *c16Thread, d time.Duration) string {
+	deadline := time.After(d)
+	for {
+		select {
+		case ev := <-st.events:
+			if u := st.get(ev.th); u != nil {
+				u.at = ev.name
+				if u == t {
+					return t.name + "@" + ev.name
+				}
+			}
+		case dn := <-st.done:
+			if u := st.get(dn.th); u != nil {
+				u.at, u.result = "done", dn.result
+				if u == t {
+					return t.name + " done " + dn.result
+				}
+			}
+		case <-deadline:
+			return t.name + " waiting"
+		}
+	}
+}
+
 func (st *c16State) endCase() {
 	st.free.Store(true)
 	st.tickArm.Store(false)
@@ -337,7 +369,18 @@ func c16Run(in *bufio.Scanner, w *bufio.Writer) {
 			fmt.Fprintln(w, st.sync(func() string { return st.doSet(f[1], f[2]) }))
 		case f[0] == "del" && len(f) == 2:
 			fmt.Fprintln(w, st.sync(func() string { return st.doDel(f[1]) }))
-		case f[0] == "spawn" && len(f) >= 4 && st.get(f[1]) == nil:
+		case f[0] == "poll" && len(f) == 2:
+			t := st.get(f[1])
+			if t == nil || t.at == "done" {
+				fmt.Fprintln(w, "bad-op")
+				break
+			}
+			if t.at != "" {
+				fmt.Fprintln(w, t.name+"@"+t.at)
+				break
+			}
+			fmt.Fprintln(w, st.awaitFor(t, 1500*time.Millisecond))
+		case (f[0] == "spawn" || f[0] == "spawnw") && len(f) >= 3 && st.get(f[1]) == nil:
 			t := &c16Thread{name: f[1], gate: make(chan struct{}), parks: map[string]bool{}}
 			var run func() string
 			switch {
@@ -347,6 +390,21 @@ func c16Run(in *bufio.Scanner, w *bufio.Writer) {
 			case f[2] == "del" && len(f) == 4:
 				t.parks["destroy.draining"] = true
 				run = func() string { return st.doDel(f[3]) }
+			case f[2] == "close" && len(f) == 3:
+				t.parks["swamp.closed"] = true
+				run = func() string {
+					h := rig.Zeus.GetHydra()
+					nm := name.Load(st.swamp)
+					if ok, err := h.IsExistSwamp(1, nm); err != nil || !ok {
+						return "closed"
+					}
+					sw, err := h.SummonSwamp(context.Background(), 1, nm)
+					if err != nil {
+						return "ERR"
+					}
+					sw.Close()
+					return "closed"
+				}
 			}
 			if run == nil {
 				fmt.Fprintln(w, "bad-op")
@@ -360,7 +418,11 @@ func c16Run(in *bufio.Scanner, w *bufio.Writer) {
 				defer st.threads.Unregister()
 				st.done <- c16Done{th: t.name, result: run()}
 			}()
-			fmt.Fprintln(w, st.await(t))
+			if f[0] == "spawnw" {
+				fmt.Fprintln(w, st.awaitFor(t, 700*time.Millisecond))
+			} else {
+				fmt.Fprintln(w, st.await(t))
+			}
 		case f[0] == "go" && len(f) == 2:
 			t := st.get(f[1])
 			if t == nil || t.at == "done" {
